@@ -806,7 +806,7 @@ def unaryOp (n : Name) (r : Val) (m : M) : Option OpRes :=
   else if n == n!"default" then uop_default r m
   else if n == n!"with" then uop_with r m
   else if n == n!"comment" then uop_comment r m
-  else if n == n!"sleep" then uop_sleep r m
+  else if n == n!"sleep" || n == n!"uisleep" then uop_sleep r m
   else if n == n!"str" then uop_str r m
   else if n == n!"format" then uop_format r m
   else if n == n!"reverse" then uop_reverse r m
